@@ -718,17 +718,22 @@ func TestVerifC14Roundtrip(t *testing.T) {
 	res.Extra["patterns"] = fmt.Sprint(len(pats))
 	k := uint64(0)
 	for _, cfg := range cfgs {
-		wcuts := c14DistinctCuts(pats, cfg.Len, 0)
+		cpats := pats
+		if cfg.Len > 5*c14B {
+			// big compressible payloads: the block layer sees the small
+			// compressed stream; a stated subset of the segmentations
+			// (every len/24-th pattern, then 12 distinct cut sequences)
+			cpats = c14ThinPats(pats, 24)
+			res.Outcome("subset:big-payload-segmentations-thinned")
+		}
+		wcuts := c14DistinctCuts(cpats, cfg.Len, 0)
 		if cfg.Len == 0 {
 			wcuts = [][]int{{}, {0}} // no Write at all; one empty Write
 		}
-		rbufs := c14DistinctCuts(pats, cfg.Len, 1)
+		rbufs := c14DistinctCuts(cpats, cfg.Len, 1)
 		if cfg.Len > 5*c14B {
-			// big compressible payloads: the block layer sees the small
-			// compressed stream; keep a stated subset of the segmentations
 			wcuts = c14Thin(wcuts, 12)
 			rbufs = c14Thin(rbufs, 12)
-			res.Outcome("subset:big-payload-segmentations-thinned")
 		}
 		for _, wc := range wcuts {
 			k++
@@ -745,6 +750,8 @@ func TestVerifC14Roundtrip(t *testing.T) {
 		}
 	}
 }
+
+func c14ThinPats(p [][]int, n int) [][]int { return c14Thin(p, n) }
 
 func c14Thin(c [][]int, n int) [][]int {
 	if len(c) <= n {
